@@ -524,19 +524,25 @@ def run(c):
         mcs.append(("MC_Syncer_big.cfg", "Syncer design, larger instance: two sessions, local<=2, remote<=5, <=2 faults"))
     mc_results, hunted, errors = [], [], []
 
-    def mc_thread():
+    def mc_thread(part):
         try:
-            hunted.extend(race_hunt(c))
-            for cfg, what in mcs:
-                mc_results.append((vlib.tlc(SPEC_DIR, "MC_Syncer", cfg, os.path.join(c.work, "mc"), workers=5 if not thorough else 8,
+            if part == 0:
+                hunted.extend(race_hunt(c))
+            for cfg, what in mcs[part::2]:
+                mc_results.append((vlib.tlc(SPEC_DIR, "MC_Syncer", cfg, os.path.join(c.work, "mc%d" % part), workers=4 if not thorough else 8,
                                             timeout=5400, heap="12g" if thorough else None), what))
         except Exception as e:
             errors.append(e)
 
-    # B. p2p receivers and the end-to-end scenarios (background; other packages, other test binaries)
-    def aux_thread():
+    # B. p2p receivers and the end-to-end scenarios (background; other packages / other test functions)
+    def recv_thread():
         try:
             recv_check(c)
+        except Exception as e:
+            errors.append(e)
+
+    def e2e_thread():
+        try:
             run_e2e(c, e2e)
         except Exception as e:
             errors.append(e)
@@ -560,7 +566,8 @@ def run(c):
         if isinstance(gens[key], Exception):
             raise gens[key]
         return gens[key]
-    ths = [threading.Thread(target=mc_thread), threading.Thread(target=aux_thread)]
+    ths = [threading.Thread(target=mc_thread, args=(0,)), threading.Thread(target=mc_thread, args=(1,)),
+           threading.Thread(target=recv_thread), threading.Thread(target=e2e_thread)]
     for th in gths + ths:
         th.start()
     try:
